@@ -352,7 +352,11 @@ func (client *client) writeLoop() {
 					// length and one more byte of remaining length) to a packet whose size has already been
 					// checked against the client's Maximum Packet Size when it was read from the queue: leave
 					// such a packet alone.
-					fits := client.opts.ClientMaxPacketSize == 0 || uint64(gmqtt.MessageFromPublish(p).TotalBytes(packets.Version5))+5 <= uint64(client.opts.ClientMaxPacketSize)
+					// The Subscription Identifiers are part of the packet that goes out but not of the message
+					// MessageFromPublish rebuilds.
+					sized := gmqtt.MessageFromPublish(p)
+					sized.SubscriptionIdentifier = p.Properties.SubscriptionIdentifier
+					fits := client.opts.ClientMaxPacketSize == 0 || uint64(sized.TotalBytes(packets.Version5))+5 <= uint64(client.opts.ClientMaxPacketSize)
 					if client.opts.ClientTopicAliasMax > 0 && fits {
 						// use alias if exist
 						if alias, ok := client.topicAliasManager.Check(p); ok {
